@@ -62,6 +62,8 @@ SENSITIVE = ["i16", "i-255", "i0", "i9223372036854775807", "i-922337203685477580
 def parse_case(case):
     """-> (kind, format text or None (joined formats for seq), list of (chunk kind, [args as wire words]))"""
     w = case.split()
+    if w[0] == "loc":
+        w = w[1:]
     if w[0] == "os":
         w = ["os"] + w[4:]
     if w[0] == "rel":
@@ -94,7 +96,7 @@ class C08(Check):
     technique = ("Coq proof over an executable model of formatter::str()/operator%/args(...) and make_string "
                  "(loop invariant relating the regex-iterator loop to the split-based formula; reuse of the proved string layer of C17) "
                  "+ extraction-based differential test against the C++")
-    level_text = ("Twenty-nine theorems proved in Coq for ALL format strings (byte lists) and ALL argument lists over a Gallina model that "
+    level_text = ("Thirty theorems proved in Coq for ALL format strings (byte lists) and ALL argument lists over a Gallina model that "
                   "follows formatter::str() statement by statement (regex iterator = next occurrence of '{}' in the format after the previous "
                   "match): the loop equals 'pieces of split \"{}\" fmt interleaved with the arguments' exactly when |args| = number of "
                   "left-to-right non-overlapping '{}' and raises otherwise (less / more), the pieces glue back to the format and contain no "
@@ -116,8 +118,8 @@ class C08(Check):
                   "byte for byte and renders long / bool / integer-valued double (|v| < 10^6) / double z+1/2 (|z| < 10^5) arguments, four "
                   "user-defined types (hex, fixed+setprecision(2), setfill+left+setw, boolalpha — none restores the stream) and ten "
                   "manipulators passed as arguments with small printers — those printers are compared with the real operator<< on a "
-                  "fresh stream by the driver only (exercised, not proved); other argument types, imbued locales and iword/pword state "
-                  "are not covered. Exception messages: exception.hpp writes all arguments into ONE stringstream, so a state-changing "
+                  "fresh stream by the driver only (exercised, not proved); other argument types and iword/pword state are not covered; one non-classic global locale (custom "
+                  "numpunct) is exercised with a model of its digit grouping (render_loc, exercised only). Exception messages: exception.hpp writes all arguments into ONE stringstream, so a state-changing "
                   "argument does influence later arguments of the same message (raise(hexer{255},16) = \"ff10\"); the message theorem "
                   "and the driver are restricted to arguments that leave the stream state alone. std::regex's search for the literal '{}' is modelled as first occurrence "
                   "(find); the correspondence is bounded-exhaustive + sampled, not proved. Only the char instantiation of the formatter "
@@ -374,6 +376,46 @@ class C08(Check):
             args = [A(rng.choice(SENSITIVE + STICKY[:10])) if rng.random() < 0.6 else S(rng.choice(VALS2)) for _ in range(n)]
             st = "%d %s %s" % (rng.choice([0, 0, 1, 2, 5, 8, 12, 20, 40]), rng.choice(["20", "2a", "30", "2e"]), rng.choice("lri"))
             yield "os %s %s" % (st, " ".join([hx(f)] + chain_mixed(args, rng))), "os-rand"
+        # the program's GLOBAL locale: the same families under a locale with digit grouping and another decimal point (the driver
+        # installs it for the case and restores the classic one): numbers >= 1000, fractional doubles, via %, args(...), raise(...),
+        # a formatter as an exception argument
+        LNUM = ["i1234567", "i-1234567", "i999", "i1000", "i0", "i-1000", "i9223372036854775807", "i-9223372036854775808", "d100000", "d-999999",
+                "d1000", "d12", "f1234", "f-1235", "f0", "f-1", "f99999", "b1", "s78", "n616263", "s312c323334"]
+        for a in LNUM:
+            yield "loc fmt %s p:%s" % (hx("n={}"), a), "loc-fmt"
+            yield "loc fmt %s a:%s" % (hx("n={}"), a), "loc-fmt"
+            yield "loc exc %s %s" % (warg(S("n=")), a), "loc-exc"
+            yield "loc excf %s p:%s" % (hx("n={}"), a), "loc-excf"
+            yield "loc lit %s p:%s" % (hx("a{}b"), a), "loc-fmt"
+            yield "loc os 12 2a l %s p:%s" % (hx("<{}>"), a), "loc-fmt"
+            for b in LNUM[::3]:
+                yield "loc fmt %s a:%s,%s" % (hx("{} / {}"), a, b), "loc-fmt"
+                yield "loc exc %s %s %s" % (a, warg(S(" ")), b), "loc-exc"
+                yield "loc seq %s p:%s / %s p:%s" % (hx("{}"), a, hx("[{}]"), b), "loc-fmt"
+                yield "loc rel mc %s - p:%s / p:%s" % (hx("{};{}"), a, b), "loc-fmt"
+        R = 600 if tier == "quick" else 10000
+        for _ in range(R):
+            k = rng.randint(0, 4)
+            n = max(0, k + rng.choice([0, 0, 0, 0, 1, -1]))
+            args = []
+            for _ in range(max(n, 1)):
+                r = rng.random()
+                if r < 0.45:
+                    args.append(("i", rng.randint(-10**rng.randint(1, 18), 10**rng.randint(1, 18))))
+                elif r < 0.65:
+                    args.append(("d", rng.randint(-999999, 999999)))
+                elif r < 0.85:
+                    args.append(("f", rng.randint(-99999, 99999)))
+                else:
+                    args.append(S(rng.choice(["", "x", "1,000", "{}", "3;5"])))
+            f = " ".join(["{}"] * k)
+            r = rng.random()
+            if r < 0.5:
+                yield "loc " + fmt_case(f, chain_mixed(args[:n], rng)), "loc-fmt"
+            elif r < 0.8:
+                yield "loc exc " + " ".join(warg(a) for a in args[:8]), "loc-exc"
+            else:
+                yield "loc excf " + " ".join([hx(f)] + chain_mixed(args[:n], rng)), "loc-excf"
         # exception messages (arguments that leave the stream state alone: see the scope note in FormatModel.v)
         for n in range(1, 4 if tier == "quick" else 5):
             for t in itertools.product(["", "x", "{}", "a b"], repeat=n):
@@ -409,6 +451,8 @@ class C08(Check):
         return n >= 2
 
     def signature(self, case, mobs, iobs):
+        if case.startswith("loc "):
+            return ("loc",) + tuple(self.signature(case[4:], mobs, iobs))
         kind, f, ops = parse_case(case)
         n = sum(len(a) for _, a in ops)
         flat = [a for _, l in ops for a in l]
@@ -437,6 +481,10 @@ class C08(Check):
         return ("exc", iobs.split(" ")[0], min(n, 8), kinds)
 
     def shrink(self, case):
+        if case.startswith("loc "):
+            for c in self.shrink(case[4:]):
+                yield "loc " + c
+            return
         w = case.split()
         if w[0] == "os":
             head = " ".join(w[:4])
